@@ -334,6 +334,7 @@ class Probes:
         self.tree_rows = []         # the rows handed to each tree (to locate the replaced record)
         self.tree_y = []
         self.loss_args = []         # (X, target) handed to each noisy logistic loss
+        self.km_init = None         # KMeans._init_centers (data independent)
 
 
 @contextlib.contextmanager
@@ -341,7 +342,12 @@ def probing():
     pr = Probes()
     KM = dp.models.k_means.KMeans
     FT = dp.models.forest._FittingTree
-    o_dl, o_fit = KM._distances_labels, FT.fit
+    o_dl, o_fit, o_init = KM._distances_labels, FT.fit, KM._init_centers
+
+    def init(self, dims, random_state):
+        out = o_init(self, dims, random_state)
+        pr.km_init = None if out is None else np.array(out)
+        return out
 
     def dl(self, X, centers):
         out = o_dl(self, X, centers)
@@ -354,11 +360,11 @@ def probing():
         pr.tree_y.append(np.array(y))
         return o_fit(self, X, y)
 
-    KM._distances_labels, FT.fit = dl, tfit
+    KM._distances_labels, FT.fit, KM._init_centers = dl, tfit, init
     try:
         yield pr
     finally:
-        KM._distances_labels, FT.fit = o_dl, o_fit
+        KM._distances_labels, FT.fit, KM._init_centers = o_dl, o_fit, o_init
 
 
 class Rec:
@@ -589,7 +595,7 @@ def account(ctx, case, rep, recD, prD, recD2, prD2, yD, yD2, mismatch=None):
 
 
 def check_case(ctx, case, reps, want_trace=False):
-    """record on D, force on each neighbour, account.  Returns (recD, prD, n_violations)."""
+    """record on D, force on each neighbour, account.  Returns (fitted model, recD, prD, n_violations)."""
     X, y = case["X"], case.get("y")
     ylab = None if y is None else [tuple(v) if isinstance(v, list) else v for v in y]
     model, recD, prD, _ = run_fit(case, X, y)
@@ -625,26 +631,188 @@ def check_case(ctx, case, reps, want_trace=False):
             ctx.case(key if key[4] > 0 else None)
         ctx.count("neighbours_" + case["model"])
     ctx.counters["max_ratio_" + case["model"]] = max(ctx.counters.get("max_ratio_" + case["model"], 0.0), round(best, 6))
-    return recD, prD, nviol
+    return model, recD, prD, nviol
+
+
+# ----------------------------------------------------------------------------------------------------------------------
+# (K) trace correspondence with the Lean plans
+# ----------------------------------------------------------------------------------------------------------------------
+
+def _fs(xs):
+    return " ".join(str(f2b(float(v))) for v in xs)
+
+
+def _flat(rows):
+    return [v for row in rows for v in row]
+
+
+def _out_scalar(rec):
+    res = rec.result
+    if isinstance(res, (int, float, np.integer, np.floating)):
+        return float(res)
+    return 0.0          # vector / function outputs are not part of the Lean model
+
+
+def driver_line(case, model, recs, pr):
+    """the Models-driver line for this fit (None when this case has no Lean counterpart)"""
+    p, m = case["params"], case["model"]
+    X = case["X"]
+    n, d = len(X), len(X[0])
+    outs = _fs(_out_scalar(rc) for rc in recs)
+    if m == "gnb":
+        return f"gnb | {f2b(p['epsilon'])} {n} {d} {p['k']} | {_fs(p['lo'])} | {_fs(p['hi'])} | {_fs(_flat(X))} | " \
+               f"{' '.join(str(v) for v in case['y'])} | {outs}"
+    if m == "scaler":
+        return f"scaler | {f2b(p['epsilon'])} {n} {d} {int(p['with_mean'])} {int(p['with_std'])} | {_fs(p['lo'])} | " \
+               f"{_fs(p['hi'])} | {_fs(_flat(X))} | {outs}"
+    if m == "kmeans":
+        if pr.km_init is None:
+            return None
+        return f"kmeans | {f2b(p['epsilon'])} {n} {d} {p['k']} | {_fs(p['lo'])} | {_fs(p['hi'])} | {_fs(_flat(X))} | " \
+               f"{_fs(pr.km_init.ravel())} | {outs}"
+    if m == "linreg":
+        return f"linreg | {f2b(p['epsilon'])} {n} {d} {p['t']} {int(p['y1d'])} {int(p['fit_intercept'])} | " \
+               f"{_fs(p['lo'])} | {_fs(p['hi'])} | {_fs(p['ylo'])} | {_fs(p['yhi'])} | {_fs(_flat(X))} | " \
+               f"{_fs(_flat(case['y']))} | {outs}"
+    if m == "logreg":
+        ds = math.sqrt(p["data_norm"] ** 2 + 1) if p["fit_intercept"] else p["data_norm"]
+        return f"logreg | {f2b(p['epsilon'])} {f2b(ds)} {len(set(case['y']))} | {outs}"
+    if m == "pca":
+        nc = p["n_components"]
+        k = min(nc, d) if isinstance(nc, int) else (min(n, d) if nc is None else d)
+        return f"pca | {f2b(p['epsilon'])} {n} {d} {k} {int(p['centered'])} | {_fs(p['lo'])} | {_fs(p['hi'])} | " \
+               f"{_fs(_flat(X))} | {outs}"
+    if m in ("forest", "tree"):
+        trees = [model.tree_] if m == "tree" else [e.tree_ for e in model.estimators_]
+        rows = np.concatenate(pr.tree_rows) if pr.tree_rows else np.zeros((0, d))
+        ys = np.concatenate(pr.tree_y) if pr.tree_y else np.zeros((0,))
+        tof = [i for i, tr in enumerate(pr.tree_rows) for _ in range(len(tr))]
+        secs = []
+        for t in trees:
+            secs += [" ".join(str(max(int(v), 0)) for v in t.feature), _fs(t.threshold),
+                     " ".join(str(int(v)) for v in t.children_left), " ".join(str(int(v)) for v in t.children_right),
+                     str(p["max_depth"])]
+        return f"forest | {f2b(p['epsilon'])} {len(rows)} {d} {p['k']} {len(trees)} | {_fs(p['lo'])} | {_fs(p['hi'])} | " \
+               f"{_fs(rows.ravel())} | {' '.join(str(int(v)) for v in ys.ravel())} | {' '.join(map(str, tof))} | " \
+               f"{outs} | " + " | ".join(secs)
+    return None
+
+
+def pack_counts(u, n):
+    acc = 0
+    for c in reversed(u):
+        acc = acc * (n + 1) + int(c)
+    return float(acc)
+
+
+def kmeans_near_boundary(case):
+    p = case["params"]
+    n, d = len(case["X"]), len(case["X"][0])
+    em = np.sqrt(500 * (p["k"] ** 3) / (n ** 2) * (d + np.cbrt(4 * d * (0.225 ** 2))) ** 3)
+    v = p["epsilon"] / em
+    return 2 - 1e-9 < v < 7 + 1e-9 and abs(v - round(v)) < 1e-9 * max(1.0, v)
+
+
+def compare_trace(ctx, case, model, recs, pr, out):
+    """Lean trace line vs the recorded real trace; True when they agree"""
+    m = case["model"]
+    n = len(case["X"])
+    secs = [s_.split() for s_ in out.split("|")]
+    unit = f"plan.{m}"
+    inp = {"case": {k: v for k, v in case.items() if k not in ("X", "y")}, "n": n}
+    if not secs or not secs[0] or secs[0][0] != "ok":
+        ctx.disagree(unit, inp, out[:200], "trace of %d calls" % len(recs), "driver refused the line")
+        return False
+    toks = secs[1]
+    ncalls = int(secs[0][1])
+    if ncalls != len(recs) or len(toks) != 7 * ncalls:
+        ctx.disagree(unit, inp, f"{ncalls} calls: " + " ".join(toks[0::7]), f"{len(recs)} calls: " +
+                     " ".join(rc.cls for rc in recs), "number of invocations")
+        return False
+    nrows = sum(len(t) for t in pr.tree_rows) if m in ("forest", "tree") else n
+    for i, rc in enumerate(recs):
+        kind = toks[7 * i]
+        eps, delta, sens, lower, upper, inpv = (b2f(int(x)) for x in toks[7 * i + 1:7 * i + 7])
+        if kind != rc.cls:
+            ctx.disagree(unit, inp, kind, rc.cls, f"class of invocation {i}")
+            return False
+        want = {"epsilon": (eps, rc.eps), "delta": (delta, rc.delta), "sensitivity": (sens, rc.sens)}
+        if kind not in ("Vector",):
+            want["lower"] = (lower, rc.lower)
+            want["upper"] = (upper, rc.upper)
+        for name, (a, b) in want.items():
+            if not gen.rel_close(a, b, 1e-9, 1e-300):
+                ctx.disagree(unit, inp, {name: a}, {name: b}, f"invocation {i} ({kind}) of {len(recs)}")
+                return False
+        # inputs
+        if kind == "PermuteAndFlip":
+            if inpv != pack_counts(rc.value, nrows):
+                ctx.disagree(unit, inp, inpv, rc.value, f"utility of invocation {i} (packed base n+1)")
+                return False
+        elif kind in ("Vector", "Bingham") or (m == "pca" and kind == "LaplaceBoundedDomain"):
+            pass
+        else:
+            tol = 1e-9 * (abs(rc.sens) * max(n, 1) if math.isfinite(rc.sens) else 1.0)
+            if not gen.rel_close(inpv, rc.value, 1e-9, tol):
+                ctx.disagree(unit, inp, inpv, rc.value, f"input of invocation {i} ({kind})")
+                return False
+    # releases where the post-processing is modelled
+    rel = secs[3] if len(secs) > 3 else []
+    if rel and rel[0] != "short":
+        vals = [b2f(int(x)) for x in rel]
+        impl = None
+        if m == "gnb":
+            k_, d_ = len(model.classes_), len(case["X"][0])
+            impl = list(model.class_count_) + [v for c in range(k_) for j in range(d_)
+                                               for v in (model.theta_[c, j], model.var_[c, j] - model.epsilon_)]
+        elif m == "scaler":
+            impl = None       # mean_/var_ go through (m*n)/n: compared in C06 between real runs
+        elif m == "kmeans":
+            impl = [float(model.n_iter_)] + list(np.ravel(model.cluster_centers_))
+        elif m == "linreg":
+            c0, c1, c2 = model._obj_coefs
+            d_ = len(case["X"][0])
+            impl = (list(vals[:len(vals) - len(c0) - c1.size - d_ * (d_ + 1) // 2]) + list(c0) +
+                    [c1[j, i] for i in range(c1.shape[1]) for j in range(c1.shape[0])] +
+                    [c2[i, j] for i in range(d_) for j in range(i, d_)])
+        if impl is not None:
+            if len(impl) != len(vals) or not all(gen.rel_close(a, float(b), 1e-9, 1e-12) for a, b in zip(vals, impl)):
+                ctx.disagree(unit, inp, vals[:12], [float(v) for v in impl[:12]], "release (post-processing)")
+                return False
+    return True
 
 
 def check(ctx):
     r = ctx.fork("cases")
     per_model = ctx.budget(14, 120)
     n_reps = 6 if ctx.tier == "quick" else 8
+    lines, pending = [], []
     for model in MODELS:
         for j in range(per_model):
             case = gen_case(r, ctx, model)
             reps = gen_replacements(r, case, n_reps)
             try:
-                check_case(ctx, case, reps)
+                fitted, recD, prD, _ = check_case(ctx, case, reps)
             except Exception as e:  # a crash of fit on a generated case is a bug of the generator, keep it visible
                 ctx.note(f"{model}: {type(e).__name__}: {str(e)[:160]}")
                 ctx.count("fit_errors")
                 if ctx.counters["fit_errors"] > 25:
                     raise
+                continue
             if j == 0:
                 ctx.sample({"model": model, "params": case["params"], "n": len(case["X"]), "replacement": reps[0]})
+            if model == "kmeans" and kmeans_near_boundary(case):
+                ctx.boundary_skipped += 1
+                continue
+            line = driver_line(case, fitted, recD, prD)
+            if line is not None:
+                lines.append(line)
+                pending.append((case, fitted, recD, prD))
+    outs = leanio.run_driver("Models", lines)
+    for (case, fitted, recD, prD), out in zip(pending, outs):
+        if compare_trace(ctx, case, fitted, recD, prD, out):
+            ctx.trace_ok()
+            ctx.count("traces_" + case["model"])
 
 
 def replay(ctx, data):
@@ -658,7 +826,7 @@ def replay(ctx, data):
             return {k: fix(v) for k, v in x.items()}
         return u(x)
     case, rep = fix(d["case"]), fix(d["replacement"])
-    _, _, nviol = check_case(ctx, case, [rep])
+    _, _, _, nviol = check_case(ctx, case, [rep])
     return nviol > 0
 
 
